@@ -146,6 +146,22 @@ CHECKS = [
         "note": "Trusts numpy.linalg.slogdet/solve and the finite-difference error bound (1e-8 relative).",
     },
     {
+        "property_id": "C12",
+        "level": "fault_enumeration",
+        "technique": "exhaustive fault injection at every call index of every user function inside the integration "
+                     "transitions of short chains (NaN / +-inf returns; Value/LinAlg errors while a solver is on the "
+                     "stack; forced non-convergence and reversibility failure), plus Hypothesis-generated solver-level "
+                     "cases",
+        "text": "For 8 system/integrator/solver configurations x 3 transition types every (function, call index, fault "
+                "kind) is injected once; each sample() must return a finite state that is the start state or the "
+                "output of a successful integrator step (recording wrapper), with integrator errors reflected in the "
+                "matching statistic and the chain continuing; fixed-point solvers are driven with contractive, "
+                "expanding, NaN-producing and raising maps and may only return converged or raise ConvergenceError.",
+        "design_ref": "DESIGN.md section 2, C12",
+        "note": "Two known findings are listed (non-finite metric / constraint-Jacobian values used outside an "
+                "iterative solve escape the transition); projection solvers' return contract is checked by C04.",
+    },
+    {
         "property_id": "C13",
         "level": "exploration",
         "technique": "property-based testing (Hypothesis) over run configurations with an independent per-process "
